@@ -1,5 +1,6 @@
 import Operon.Model.Proto
 import Operon.Model.Loops
+import Operon.Gen.LoopTables
 /-! Line-protocol driver for the loop models (C18).  Adversaries are scripted: one character per call,
     the last character repeats.  The same scripts are realised as Python callables by `harness/vf/props/c18.py`. -/
 open Operon Operon.Proto Operon.Loops
@@ -368,6 +369,13 @@ def toolTags (cfg : ToolCfg) (r : ToolRun TSt Nat Nat TRes) : String :=
 
 /-! ### dispatch -/
 
+/-- a limit token: an integer, or `d` = the caller does not name the limit and the class's default applies (read
+    from the class on this run, `Gen/LoopTables.lean`) -/
+def limD (tok : String) (dflt : Option Int) : Int := if tok = "d" then dflt.getD 0 else intD tok
+
+/-- a float token, `d` = the default literal of the class -/
+def floatD (tok : String) (dflt : Float) : Float := if tok = "d" then dflt else floatOf tok
+
 structure DSt where
   /-- environment of the live `ChaperoneLoop` (`loop` / `hset` / `hcall` lines) -/
   hs : HSt := {}
@@ -380,7 +388,7 @@ structure DSt where
 def toolLine (log : List (TLog Nat TRes)) (mi ae hs ha ps ts cs : String) :
     List (TLog Nat TRes) × String :=
   -- hasSchemas: 0 / 1 = stub mitochondria without / with schemas, 3 / 2 = the real Mitochondria without / with a tool
-  let cfg : ToolCfg := ⟨intD mi, boolOf ae, hs = "1" || hs = "2", boolOf ha⟩
+  let cfg : ToolCfg := ⟨limD mi Loops.Gen.defaultMaxIterations, boolOf ae, hs = "1" || hs = "2", boolOf ha⟩
   let s0 : TSt := { ps := scriptOf ps, ts := scriptOf ts, cs := scriptOf cs, realMito := hs = "2" || hs = "3" }
   let r := nucCall toolAdvD log s0 cfg
   (r.1, showTool r.1 r.2.2 ++ " ## " ++ toolTags cfg r.2.2)
@@ -388,10 +396,12 @@ def toolLine (log : List (TLog Nat TRes)) (mi ae hs ha ps ts cs : String) :
 def step (st : DSt) (toks : List String) : DSt × String :=
   match toks with
   | ["heal", mr, decay, _mode, gs, fs] =>      -- a fresh loop object, one call
-    let s0 : HSt := hScripts (scriptOf gs) (scriptOf fs) { mr := intD mr, decay := floatOf decay }
+    let s0 : HSt := hScripts (scriptOf gs) (scriptOf fs)
+      { mr := limD mr Loops.Gen.defaultMaxRetries, decay := floatD decay 0.1 }
     let r := (healObjD.call () s0 "P<7>").2.2
     (st, showHeal r ++ " ## " ++ healTags r)
-  | ["loop", mr, decay, _mode] => ({ st with hs := { mr := intD mr, decay := floatOf decay } }, "ok")
+  | ["loop", mr, decay, _mode] =>
+    ({ st with hs := { mr := limD mr Loops.Gen.defaultMaxRetries, decay := floatD decay 0.1 } }, "ok")
   | ["hset", "mr", v] => ({ st with hs := { st.hs with mr := intD v } }, "ok")
   | ["hset", "decay", v] => ({ st with hs := { st.hs with decay := floatOf v } }, "ok")
   | ["hset", _, "new"] => (st, "ok")           -- a callback attribute re-assigned to an equivalent new callable
@@ -401,7 +411,8 @@ def step (st : DSt) (toks : List String) : DSt × String :=
     | (_, s', some r) => ({ st with hs := s' }, showHeal r ++ " ## " ++ healTags r ++ " heal:live")
     | _ => (st, "bad-op")
   | ["swarm", mr, ms, thr] =>
-    ({ st with ss := { cfg := ⟨intD mr, intD ms⟩, thr := floatOf thr }, sw := ⟨0, [], []⟩ }, "ok")
+    ({ st with ss := { cfg := ⟨limD mr Loops.Gen.defaultMaxRegenerations, limD ms Loops.Gen.defaultMaxSteps⟩,
+                       thr := floatD thr 0.9 }, sw := ⟨0, [], []⟩ }, "ok")
   | ["sset", "mreg", v] => ({ st with ss := { st.ss with cfg := ⟨intD v, st.ss.cfg.maxSteps⟩ } }, "ok")
   | ["sset", "ms", v] => ({ st with ss := { st.ss with cfg := ⟨st.ss.cfg.maxRegen, intD v⟩ } }, "ok")
   | ["sset", "thr", v] => ({ st with ss := { st.ss with thr := floatOf v } }, "ok")
